@@ -226,13 +226,16 @@ def check_shape(arg):
     return evaluations, nontrivial, violations
 
 
+def _init_worker(repo):
+    import sys
+    sys.path.insert(0, repo)   # the tree under test, as in standins.runner
+
+
 def run(repo, seed, tier):
-    import jedi  # noqa: F401  (imported before the fork so that every worker uses the tree under test)
     all_shapes = list(enumerate(shapes()))
-    chosen = [(i, s, seed, tier) for i, s in all_shapes if tier == 'thorough' or (i + seed) % 2 == 0]
-    # warm-up in the parent (lazy imports, inspect's module tables, parser cache) so that the forked workers start hot
-    check_shape((len(all_shapes), all_shapes[0][1], seed, 'quick'))
-    with mp.get_context('fork').Pool(min(16, os.cpu_count() or 4)) as pool:
+    chosen = [(i, s, seed, tier) for i, s in all_shapes if tier == 'thorough' or (i + seed) % 3 == 0]
+    # spawned (not forked) workers: after a fork of the jedi-laden parent the same work costs 2x user and 20x system time
+    with mp.get_context('spawn').Pool(min(16, os.cpu_count() or 4), initializer=_init_worker, initargs=(repo,)) as pool:
         results = pool.map(check_shape, chosen, chunksize=1)
     violations = [v for r in results for v in r[2]]
     counts, kept = {}, []
